@@ -4,15 +4,45 @@ for desper.logic.coroutines.CoroutineProcessor.
 A case is
   {'scripts': [[gid, [[ [[kind, target], ...], ['yield', None | eighths] | ['return', None | int] ], ...]], ...],
    'ops': [['start', g] | ['kill', g] | ['state', g] | ['value', g] | ['process', eighths], ...]}
-Times are integers in eighths of a unit; the implementation is fed the dyadic
-float n / 8.0, so that every float operation is exact.  gid >= 0 names a
-generator object built from its script, gid < 0 a non-generator.
+Times are integers in eighths of a unit; the implementation is fed the same
+dyadic value as a float, an int, a fractions.Fraction or a bool (optional
+third element of a yield / process entry: 'f', 'i', 'q', 'b'), so that every
+operation is exact in every type.  (decimal.Decimal is not fed: the real
+process() raises TypeError on Decimal + float.)  gid >= 0 names a generator
+object built from its script, gid < 0 a non-generator.
+Optional keys of a case: 'pre' [[gid, [v, ...]]] values the generator yields
+when it is advanced outside the processor before anything else; 'world'
+[before, after] the processor is added to a World between that many other
+processors and driven through world.process; 'promise' kill / state go through
+the CoroutinePromise when one exists; 'deco' top-level starts go through a
+@desper.coroutine function with an explicit world= argument.
 """
 from harness.core import z, lst, opt
 
 WAITS = [None, None, 0, -8, 1, 2, 4, 8, 8, 12, 16, 24, 32]
 DTS = [0, 1, 4, 8, 8, 16, 24]
 NONGEN = [-1, -2, -3, -4]
+
+
+def tags_for(v):
+    """Python types in which the dyadic value v / 8 can be fed exactly."""
+    t = ['f', 'q', 'q']
+    if v % 8 == 0:
+        t += ['i', 'i']
+    if v in (0, 8):
+        t.append('b')
+    return t
+
+
+def num(v, tag='f'):
+    import fractions
+    if tag == 'i' and v % 8 == 0:
+        return v // 8
+    if tag == 'b' and v in (0, 8):
+        return v == 8
+    if tag == 'q':
+        return fractions.Fraction(v, 8)
+    return v / 8.0
 
 
 # ------------------------------------------------------------------ generation
@@ -75,6 +105,7 @@ def gen_case(rng, kills, nested, nframes=None):
         if kills > 0 and rng.random() < 0.2:
             start_frame[g] = 99
     tight = rng.random() < 0.5      # small dt / wait alphabet: sums hit deadlines exactly
+    mixed = rng.random() < 0.65     # number types other than float
     waits = [None, 0, 4, 8, 8, 16] if tight else WAITS
     dts = [0, 4, 8, 8] if tight else DTS
     scripts = []
@@ -94,7 +125,10 @@ def gen_case(rng, kills, nested, nframes=None):
             if last:
                 res = ['return', rng.choice([None, 0, 7, -3, g])]
             else:
-                res = ['yield', rng.choice(waits)]
+                w = rng.choice(waits)
+                res = ['yield', w]
+                if mixed and w is not None:
+                    res.append(rng.choice(tags_for(w)))
             steps.append([acts, res])
         scripts.append([g, steps])
     frame = 0
@@ -122,14 +156,29 @@ def gen_case(rng, kills, nested, nframes=None):
                 ops.append(['state', target(False)])
             else:
                 ops.append(['value', rng.randrange(n)])
-        ops.append(['process', rng.choice(dts)])
+        dt = rng.choice(dts)
+        ops.append(['process', dt, rng.choice(tags_for(dt))] if mixed else ['process', dt])
         frame += 1
     for g in range(n):
         if rng.random() < 0.5:
             ops.append(['value', g])
         if rng.random() < 0.3:
             ops.append(['state', g])
-    return dict(scripts=scripts, ops=ops)
+    case = dict(scripts=scripts, ops=ops)
+    # less travelled surface
+    pre = []
+    for g in range(n):
+        if rng.random() < 0.12:     # generator that already ran partly outside the processor
+            pre.append([g, [rng.choice([None, 0, 8, 4]) for _ in range(rng.randint(1, 2))]])
+    if pre:
+        case['pre'] = pre
+    if rng.random() < 0.4:
+        case['world'] = [rng.randint(0, 2), rng.randint(0, 2)]
+        if rng.random() < 0.5:
+            case['deco'] = True
+    if rng.random() < 0.4:
+        case['promise'] = True
+    return case
 
 
 # ----------------------------------------------------------- implementation
@@ -141,12 +190,31 @@ def _name(ex):
 def run(case):
     import gc
     import weakref
+    import desper
     from desper.logic.coroutines import CoroutineProcessor
 
     proc = CoroutineProcessor()
     table = {}          # gid -> generator object
     latest = {}         # gid -> promise of the last successful start
     cur = []            # execution log of the running frame
+    via_promise = bool(case.get('promise'))
+    pre = {g: vals for g, vals in case.get('pre', [])}
+
+    world = None
+    if case.get('world') is not None:
+        world = desper.World()
+        before, after = case['world']
+        for i in range(before):
+            world.add_processor(type('Before%d' % i, (desper.Processor,),
+                                     {'process': lambda self, dt: None})(), -1 - i)
+        world.add_processor(proc, 0)
+        for i in range(after):
+            world.add_processor(type('After%d' % i, (desper.Processor,),
+                                     {'process': lambda self, dt: None})(), 1 + i)
+
+    @desper.coroutine
+    def launch(obj, world=None):        # the generator "function" hands out a prepared object
+        return obj
 
     def nongen_fn():
         yield
@@ -156,23 +224,33 @@ def run(case):
     def obj(g):
         return table[g] if g >= 0 else nongen.get(g, 3.5)
 
-    def do(kind, g):
+    def do(kind, g, top=False):
         try:
             if kind == 'start':
-                pr = proc.start(obj(g))
+                if top and world is not None and case.get('deco'):
+                    pr = launch(obj(g), world=world)
+                else:
+                    pr = proc.start(obj(g))
                 if g >= 0:
                     latest[g] = pr
                 return 'ok'
             if kind == 'kill':
-                proc.kill(obj(g))
+                if via_promise and g in latest:
+                    latest[g].kill()
+                else:
+                    proc.kill(obj(g))
                 return 'ok'
             if kind == 'state':
+                if via_promise and g in latest:
+                    return int(latest[g].state)
                 return int(proc.state(obj(g)))
         except Exception as ex:
             return _name(ex)
 
     def make(g, steps):
         def body():
+            for v in pre.get(g, ()):            # resumptions outside the processor
+                yield (None if v is None else num(v))
             for k, (acts, res) in enumerate(steps):
                 outs = []
                 cur.append([g, k, outs])        # logged before anything is done
@@ -180,11 +258,13 @@ def run(case):
                     outs.append(do(kind, tg))
                 if res[0] == 'return':
                     return res[1]
-                yield (None if res[1] is None else res[1] / 8.0)
+                yield (None if res[1] is None else num(res[1], *res[2:3]))
         return body()
 
     for g, steps in case['scripts']:
         table[g] = make(g, steps)
+        for _ in pre.get(g, ()):
+            next(table[g])
     refs = [(g, weakref.ref(gen)) for g, gen in table.items()]
 
     obs = []
@@ -193,8 +273,12 @@ def run(case):
         if kind == 'process':
             cur = []
             exc = 'ok'
+            dt = num(o[1], *o[2:3])
             try:
-                proc.process(o[1] / 8.0)
+                if world is not None:
+                    world.process(dt)
+                else:
+                    proc.process(dt)
             except Exception as ex:
                 exc = _name(ex)
             obs.append([cur, exc])
@@ -205,8 +289,9 @@ def run(case):
                 v = 'other'
             obs.append(v)
         else:
-            obs.append(do(kind, o[1]))
+            obs.append(do(kind, o[1], top=True))
     # release: drop every reference of the harness, see who survives
+    # (the processor stays referenced from `proc` / the world)
     table.clear()
     latest.clear()
     pr = None
@@ -314,7 +399,8 @@ def wake_stats(case, trace):
 
 
 def stats(cases, traces):
-    tot = dict(cases=len(cases), ops={}, outcomes={}, in_body_actions=0, body_steps=0,
+    tot = dict(cases=len(cases), ops={}, outcomes={}, number_types={}, extras={},
+               in_body_actions=0, body_steps=0,
                waits=0, exact=0, over=0, same_frame_wakes=0, process_exceptions=0,
                alive_at_end=0, kill_then_start=0, hangs=0)
     for c, t in zip(cases, traces):
@@ -322,8 +408,19 @@ def stats(cases, traces):
             tot['hangs'] += 1
             continue
         prev = None
+        for key in ('pre', 'world', 'deco', 'promise'):
+            if key in c:
+                tot['extras'][key] = tot['extras'].get(key, 0) + 1
+        for _, steps in c['scripts']:
+            for _, res in steps:
+                if res[0] == 'yield' and res[1] is not None:
+                    tg = 'yield:' + (res[2] if len(res) > 2 else 'f')
+                    tot['number_types'][tg] = tot['number_types'].get(tg, 0) + 1
         for o, ob in zip(c['ops'], t['obs']):
             tot['ops'][o[0]] = tot['ops'].get(o[0], 0) + 1
+            if o[0] == 'process':
+                tg = 'dt:' + (o[2] if len(o) > 2 else 'f')
+                tot['number_types'][tg] = tot['number_types'].get(tg, 0) + 1
             if o[0] in ('start', 'kill', 'state'):
                 key = '%s:%s' % (o[0], ob)
                 tot['outcomes'][key] = tot['outcomes'].get(key, 0) + 1
@@ -351,13 +448,23 @@ def stats(cases, traces):
 
 # ------------------------------------------------------------------ shrinking
 def shrink(case):
-    """Smaller cases: fewer ops, then simpler scripts."""
+    """Smaller cases: fewer ops, then simpler scripts, then no extras."""
     ops, scripts = case['ops'], case['scripts']
+
+    def mk(**kw):
+        c = dict(case)
+        c.update(kw)
+        return c
     n = len(ops)
     for k in range(1, n):
-        yield dict(scripts=scripts, ops=ops[:k])
+        yield mk(ops=ops[:k])
     for i in range(n):
-        yield dict(scripts=scripts, ops=ops[:i] + ops[i + 1:])
+        yield mk(ops=ops[:i] + ops[i + 1:])
+    for key in ('deco', 'world', 'promise', 'pre'):
+        if key in case and not (key == 'world' and 'deco' in case):
+            c = dict(case)
+            del c[key]
+            yield c
     trivial = [[[], ['return', None]]]
     used = set(o[1] for o in ops if o[0] != 'process')
     for _, steps in scripts:
@@ -365,9 +472,9 @@ def shrink(case):
             used.update(a[1] for a in acts)
     for si, (g, steps) in enumerate(scripts):
         def with_steps(new):
-            return dict(scripts=scripts[:si] + [[g, new]] + scripts[si + 1:], ops=ops)
+            return mk(scripts=scripts[:si] + [[g, new]] + scripts[si + 1:])
         if g not in used and len(scripts) > 1:
-            yield dict(scripts=scripts[:si] + scripts[si + 1:], ops=ops)
+            yield mk(scripts=scripts[:si] + scripts[si + 1:])
         if steps != trivial:
             yield with_steps(trivial)
         for k in range(1, len(steps)):
@@ -381,3 +488,8 @@ def shrink(case):
                         yield with_steps(steps[:k] + [[acts[:j] + acts[j + 1:], res]] + steps[k + 1:])
             if res[0] == 'yield' and res[1] is not None:
                 yield with_steps(steps[:k] + [[acts, ['yield', None]]] + steps[k + 1:])
+                if len(res) > 2:
+                    yield with_steps(steps[:k] + [[acts, res[:2]]] + steps[k + 1:])
+    for i, o in enumerate(ops):
+        if o[0] == 'process' and len(o) > 2:
+            yield mk(ops=ops[:i] + [o[:2]] + ops[i + 1:])
